@@ -12,8 +12,13 @@ for f in sorted(glob.glob('/verif/replays/%s/*.json' % ID)):
     j = json.load(open(f))
     k = j['key']; base = '|'.join(k.split('|')[:2])
     if (ID, k) in have: continue
-    if base not in whats:
+    what = whats.get(base)
+    if what is None:
+        for pat, w in whats.items():
+            if pat.endswith('*') and base.startswith(pat[:-1]):
+                what = w
+    if what is None:
         print('UNCLASSIFIED', k[:160]); continue
-    kf.append({'property': ID, 'key': k, 'status': 'known', 'what': whats[base]})
+    kf.append({'property': ID, 'key': k, 'status': 'known', 'what': what})
     print('added', k[:100])
 json.dump(kf, open('/verif/known_findings.json', 'w'), indent=1, ensure_ascii=False)
